@@ -12,7 +12,7 @@ FUNCTIONS = ['tainted::to_opaque (rlbox.hpp:1073-1076)', 'rlbox::from_opaque (rl
              'sandbox_reinterpret_cast, sandbox_const_cast, sandbox_static_cast (rlbox_stdlib.hpp:39-98)']
 
 CT = {'int': 'int', 'long': 'long', 'unsigned char': 'unsigned char', 'double': 'double', 'int*': 'int *', 'long long': 'long long',
-      'short': 'short', 'unsigned long': 'unsigned long', 'char': 'char', 'float': 'float', 'const int*': 'const int *', 'void*': 'void *', 'long*': 'long *', 'char*': 'char *'}
+      'short': 'short', 'unsigned long': 'unsigned long', 'unsigned long long': 'unsigned long long', 'char': 'char', 'float': 'float', 'const int*': 'const int *', 'void*': 'void *', 'long*': 'long *', 'char*': 'char *'}
 
 
 def tt(t):
@@ -91,6 +91,13 @@ def cast_inst(kind, lhs, rhs, src_wrap, tier):
               ('frame', '__CPROVER_assigns()')]
         h = REGIONS + '  struct %s cell; unsigned int in_repr = cell.data;\n  __CPROVER_assume(V_WHICH((uintptr_t)&cell) != -1);\n  struct %s r = $ROOT(&cell);\n' % (ST, RT)
         leaves, pre_def = ['dynamic_check', NOCTX_LEAF], OBJVIEW
+        if not is_ptr:
+            # numeric source in sandbox memory: the cell holds the guest representation, whose value is the application value
+            cl = [('cell_obj', '__CPROVER_requires(__CPROVER_r_ok(%s, sizeof(struct %s)))' % (cell, ST)),
+                  ('value_is_c_cast_of_the_cell_value', '__CPROVER_ensures(%s)' % same_bits('$ret.data', '((%s)(%s)%s->data)' % (CT[lhs], CT[rhs], cell), lhs)),
+                  ('frame', '__CPROVER_assigns()')]
+            h = '  struct %s cell; long long in_repr = cell.data;\n  struct %s r = $ROOT(&cell);\n' % (ST, RT)
+            leaves, pre_def = ['dynamic_check'], ''
     srcp = '%s<%s, vsbx>& x' % (src_wrap, rhs)
     name = 'c20_%s_cast_%s_from_%s_%s' % (kind, lhs.replace(' ', '_').replace('*', 'p'), src_wrap, rhs.replace(' ', '_').replace('*', 'p'))
     return Inst(name, srcp, '%s<%s>(x);' % (fn, lhs), cl, h, leaves=leaves, prop=PROP, root_name=fn, tier=tier, pre=PRE_GHOST, pre_defines=pre_def)
@@ -103,11 +110,14 @@ def units(tier):
         insts += [to_opaque_inst(t, tier), from_opaque_inst(t, tier), roundtrip_inst(t, tier)]
     casts = [('reinterpret', 'long*', 'int*', 'tainted'), ('reinterpret', 'char*', 'int*', 'tainted_volatile'),
              ('const', 'int*', 'const int*', 'tainted'), ('static', 'long', 'int', 'tainted'), ('static', 'short', 'long', 'tainted'),
-             ('static', 'double', 'int', 'tainted'), ('static', 'void*', 'int*', 'tainted')]
+             ('static', 'double', 'int', 'tainted'), ('static', 'void*', 'int*', 'tainted'),
+             # targets whose sandbox-ABI width is narrower than the application's (long / unsigned long are 32 bits in vsbx)
+             ('static', 'long', 'long long', 'tainted'), ('static', 'unsigned long', 'int', 'tainted'), ('static', 'long', 'unsigned long long', 'tainted_volatile')]
     if tier != 'quick':
         casts += [('reinterpret', 'void*', 'long*', 'tainted'), ('reinterpret', 'int*', 'char*', 'tainted'), ('const', 'int*', 'const int*', 'tainted_volatile'),
                   ('static', 'unsigned char', 'int', 'tainted'), ('static', 'int', 'double', 'tainted'), ('static', 'unsigned long', 'long', 'tainted'),
-                  ('static', 'float', 'double', 'tainted')]
+                  ('static', 'float', 'double', 'tainted'), ('static', 'unsigned long', 'long long', 'tainted_volatile'), ('static', 'long', 'double', 'tainted'),
+                  ('static', 'unsigned long', 'unsigned long long', 'tainted'), ('static', 'long', 'short', 'tainted_volatile')]
     for c in casts:
         insts.append(cast_inst(*c, tier))
     return [Unit('C20_opaque_casts', insts)]
